@@ -25,6 +25,8 @@ pub enum Op {
     SetText { slot: usize, path: Vec<String>, text: Option<String> },
     GetChild { slot: usize, path: Vec<String>, name: String },
     Render { slot: usize },
+    /// add `count` fresh leaves n0..n(count-1) one by one (wide nodes: size thresholds)
+    AddMany { slot: usize, path: Vec<String>, count: usize },
 }
 
 #[derive(Clone, Debug, PartialEq)]
@@ -263,6 +265,26 @@ fn apply(w: &mut World, op: &Op, st: &mut Flags) -> Result<(), String> {
                 render_check(r, m)?;
             }
         }
+        Op::AddMany { slot, path, count } => {
+            let total = w.model[*slot].as_ref().map(|m| m.size()).unwrap_or(0) + count;
+            if total > MAX_NODES + 40 {
+                return Ok(());
+            }
+            if let (Some(r), Some(m)) = (w.real[*slot].as_mut(), w.model[*slot].as_mut()) {
+                if let (Some(rn), Some(mn)) = (at_mut(r, path), m.at_mut(path)) {
+                    for i in 0..*count {
+                        let name = format!("n{}", i);
+                        if !mn.children.iter().any(|c| c.1.name == name) {
+                            mn.children.push((false, MNode::new(&name, &[])));
+                        }
+                        rn.add_unique_child(Element::new(name, vec![]));
+                    }
+                    if mn.children.len() > 16 {
+                        st.wide = true;
+                    }
+                }
+            }
+        }
     }
     // invariant after every step: every tree equals its model
     for (r, m) in w.real.iter().zip(w.model.iter()) {
@@ -282,6 +304,7 @@ struct Flags {
     optional_with_subtree: bool,
     removed_names: Vec<String>,
     renders: u32,
+    wide: bool,
 }
 
 fn run_ops(ops: &[Op], slots: usize) -> (Result<(), String>, Flags) {
@@ -379,7 +402,7 @@ fn run_tape(tape: &[u8]) -> (Vec<Op>, Result<(), String>, Flags) {
                 i += 1;
                 let slot = t.weighted(&[6, 2, 1]);
                 let m = w.model[slot].as_ref();
-                match t.weighted(&[6, 5, 3, 3, 2, 2, 2, 1, 1]) {
+                match t.weighted(&[6, 5, 3, 3, 2, 2, 2, 1, 1, 1]) {
                     0 => {
                         let path = decode_path(&mut t, m);
                         let from = if t.chance(60) { Some(t.choose(3)) } else { None };
@@ -406,7 +429,8 @@ fn run_tape(tape: &[u8]) -> (Vec<Op>, Result<(), String>, Flags) {
                         Op::GetChild { slot, path, name }
                     }
                     7 => Op::New { slot, name: t.pick(NAMES).to_string(), attrs: decode_attr_list(&mut t, false).into_iter().map(|x| x.1).collect() },
-                    _ => Op::Render { slot },
+                    8 => Op::Render { slot },
+                    _ => Op::AddMany { slot, path: decode_path(&mut t, m), count: *t.pick(&[3usize, 9, 17, 33, 40]) },
                 }
             }
         };
@@ -477,6 +501,7 @@ impl Property for C16 {
         flag("remove_then_add", fl.remove_then_add);
         flag("merge_after_add", fl.merge_after_add);
         flag("mark_optional_with_subtree", fl.optional_with_subtree);
+        flag("node_with_more_than_16_children", fl.wide);
         st.add("renderings_checked", fl.renders as u64);
         st.add("operations", ops.len() as u64);
         st.sample(|| json!({"operations": ops}));
